@@ -116,6 +116,11 @@ func (g *c18Graph) install(sigChoice bool) {
 }
 
 func c18Executor(ctx context.Context, failFast bool, nodes []*model.Target) (*Executor, backends.CacheBackend) {
+	return fullExecutor(ctx, failFast, config.LoadOutputsAll, nodes)
+}
+
+// fullExecutor wires a real Executor the way cmds/build.go does (file-system cache, CAS, registry, graph with all nodes selected)
+func fullExecutor(ctx context.Context, failFast bool, mode config.LoadOutputsMode, nodes []*model.Target) (*Executor, backends.CacheBackend) {
 	be, err := backends.NewFileSystemCache(ctx)
 	if err != nil {
 		panic(err)
@@ -135,7 +140,7 @@ func c18Executor(ctx context.Context, failFast bool, nodes []*model.Target) (*Ex
 			}
 		}
 	}
-	e := NewExecutor(caching.NewTargetResultCache(be), caching.NewTaintCache(be), reg, g, failFast, false, true, config.LoadOutputsAll)
+	e := NewExecutor(caching.NewTargetResultCache(be), caching.NewTaintCache(be), reg, g, failFast, false, true, mode)
 	return e, be
 }
 
